@@ -90,10 +90,10 @@ def guided_filter_segment(r, g, base_segs, doc, registry=None, need=None, tries=
     return None
 
 
-def make_doc(r, tier, names=None, strings=None, falsy_bias=0.25):
+def make_doc(r, tier, names=None, strings=None, falsy_bias=0.25, wide_p=0.04):
     depth, nodes = (4, 25) if tier == "quick" else (6, 80)
     return V.container(r, depth=r.randrange(2, depth + 1), names=names, budget=[r.randrange(6, nodes)],
-                       strings=strings, falsy_bias=falsy_bias)
+                       strings=strings, falsy_bias=falsy_bias, wide_p=wide_p)
 
 
 def examine_find(case, registry=None, env=None):
